@@ -208,17 +208,18 @@ def check_snell(ctx, obs):
                           {"kind": "snell_roundtrip" + sfx}, rep)
             if near_axis:
                 ctx.count("snell_fail_near_axis")
-        res = abs(float(hp.sin(frac_of_hex(o["te"])) - hp.D(frac_of_hex(o["n"])) * hp.sin(frac_of_hex(o["ti"]))))
+        # sin|theta_e| = n(theta_i) sin|theta_i| (a negative external angle gives the mirrored internal angle)
+        res = abs(float(hp.sin(abs(frac_of_hex(o["te"]))) - hp.D(frac_of_hex(o["n"])) * hp.sin(abs(frac_of_hex(o["ti"])))))
         rep["residual"] = res
         if res > 3e-8:
             # the property gives no tolerance for Snell's law itself: a residual above 3e-8 is the optimiser's CONTRACT failing (the
             # hypothesis of the round-trip theorem); it is a property violation only when the 1e-5 deg read-back fails as well
-            ctx.violation("S5", f"{o['id']} ({o['pol']}): optimiser contract fails: residual |sin(theta_e) - n sin(theta_i)| = {res:.3e} > 3e-8 at theta_e = "
+            ctx.violation("S5", f"{o['id']} ({o['pol']}): optimiser contract fails: residual |sin|theta_e| - n sin|theta_i|| = {res:.3e} > 3e-8 at theta_e = "
                           f"{fl(o['te_deg'])!r} deg (read-back error {err_deg:.2e} deg){note}",
                           {"kind": "snell_residual" + sfx}, rep, found_input=err_deg > 1e-5)
-        if abs(ti) > abs(te) + 1e-9 or not (0 <= ti <= math.pi / 2):
-            ctx.violation("S5", f"{o['id']} ({o['pol']}): internal angle {ti!r} is larger than the external angle {te!r} (or outside [0, pi/2])",
-                          {"kind": "snell_internal_larger" + sfx}, rep)
+        if abs(ti) > abs(te) + 1e-9 or not (abs(ti) <= math.pi / 2) or (ti != 0 and te != 0 and (ti > 0) != (te > 0)):
+            ctx.violation("S5", f"{o['id']} ({o['pol']}): internal angle {ti!r} is larger in magnitude than the external angle {te!r}, outside [-pi/2, pi/2], "
+                          f"or on the other side of the normal", {"kind": "snell_internal_larger" + sfx}, rep)
         out.append(o)
     return out
 
@@ -463,11 +464,11 @@ def nm_replay(ctx, snells, budget):
         if any(not is_finite_hex(c) and fl(c) != float("inf") for _, c in r["table"]):
             continue
         rep = {"crystal": o["id"], "polarization": o["pol"], "theta_external_deg": fl(o["te_deg"]), "replay": None}
-        if r["direct"] is None or r["direct"] != r["result"]["x"]:
+        if r["direct"] is None or r["direct"] != r.get("signed", r["result"]["x"]):
             # the harness replica (cost closure rebuilt from public API) no longer follows calc_internal_theta_from_external
             ctx.case_failures.append(rep)
             ctx.violation("S4", f"{o['id']}: calc_internal_theta_from_external returns {fl(r['direct']) if r['direct'] else None!r}, the replica of its "
-                          f"optimisation (cost |sin th_e - n sin th|, seeds (th_e, th_e + 1), 100 iterations, [0, pi/2], 1e-12) returns "
+                          f"optimisation (cost |sin th_e - n sin th|, seeds (|th_e|, |th_e| + 1), 100 iterations, [0, pi/2], 1e-12) returns "
                           f"{fl(r['result']['x'])!r}", {"kind": "model_mismatch", "what": "snell_replica"}, rep, found_input=False)
             continue
         cand.append(o)
